@@ -6,6 +6,8 @@ void runEpisode(const nlohmann::json& ep)
     const std::string comp = ep.value("comp", "");
     if (comp == "enc")
         runEnc(ep);
+    else if (comp == "dec")
+        runDec(ep);
     else
     {
         Out o;
